@@ -51,13 +51,14 @@ def cases(draw, nmax=48):
     wvl = draw(gen.logfloat(0.3e-6, 10e-6))
     d1 = draw(gen.logfloat(1e-5, 1.0))
     z = draw(gen.signed_logfloat(1e-3, 1e6))
-    m = draw(st.one_of(st.just(1.0), st.floats(0.2, 5.0), st.sampled_from([0.5, 2.0, 1.0])))
+    # "any magnification": pupil samples of a centimetre onto focal samples of a micron are a magnification of 1e-4
+    m = draw(st.one_of(st.just(1.0), st.floats(0.2, 5.0), st.sampled_from([0.5, 2.0, 1.0]), gen.logfloat(1e-9, 1e6)))
     zi = draw(st.booleans())
     if zi and abs(z) >= 1:
         z = int(round(z))
     return {"u": u, "v": v, "kind": kind, "prop": prop, "wvl": wvl, "d1": d1, "z": z, "m": m,
             "a": complex(draw(gen.dyadic(-2, 2, 8)), draw(gen.dyadic(-2, 2, 8))), "b": complex(draw(gen.dyadic(-2, 2, 8)), draw(gen.dyadic(-2, 2, 8))),
-            "np_scalars": draw(st.booleans())}
+            "np_scalars": draw(st.booleans()), "single": draw(st.sampled_from([False, False, False, True]))}
 
 
 def run_prop(case, U):
@@ -81,6 +82,10 @@ def run_prop(case, U):
 
 def body(ctx, case):
     u, v = case["u"], case["v"]
+    if case.get("single") and case["kind"] == "dyadic":
+        # the same (exactly representable) samples stored in single precision: a field is a field
+        u, v = u.astype(np.complex64), v.astype(np.complex64)
+        ctx.classes["complex64_field"] += 1
     const = bool(np.all(u == u.flat[0]))
     ctx.case(case, nontrivial=(not const) and (case["m"] != 1.0 or case["z"] < 0),
              classes=[case["prop"], case["kind"], "m1" if case["m"] == 1.0 else "m_ne_1", "z_neg" if case["z"] < 0 else "z_pos",
@@ -99,7 +104,7 @@ def body(ctx, case):
     out = np.asarray(out)
     ctx.require(out.shape == u.shape, "%s output shape %s" % (case["prop"], out.shape))
     ctx.require(bool(np.all(np.isfinite(out))), "%s output not finite (m=%r, z=%r [%s])" % (case["prop"], case["m"], case["z"], type(case["z"]).__name__))
-    pin = float(np.sum(np.abs(u) ** 2)) * case["d1"] ** 2
+    pin = float(np.sum(np.abs(u.astype(np.complex128)) ** 2)) * case["d1"] ** 2
     pout = float(np.sum(np.abs(out) ** 2)) * dout ** 2
     ctx.close(pout, pin, TOL, "%s power conservation (m=%r, z=%r)" % (case["prop"], case["m"], case["z"]), scale=max(pin, 1e-300))
     # history with a near-coincidence: a preceding call whose scalar arguments differ by a few parts in 1e4 (same field,
@@ -114,14 +119,18 @@ def body(ctx, case):
             again, _ = run_prop(case, u)
         ctx.equal(np.asarray(again), out, "%s: result depends on a preceding call with a slightly different %s" % (case["prop"], fld))
     # homogeneity over many decades of amplitude (a field of 1e-12 is as good a field as one of 1)
-    for sfac in (1e-12, 1e-9, 1e7):
+    for sfac in ((1e-12, 1e-9, 1e7) if u.dtype != np.complex64 else (2.0 ** -40, 2.0 ** -30, 2.0 ** 23)):      # exact in the field's own precision
         with np.errstate(all="ignore"):
-            os_, _ = run_prop(case, u * sfac)
+            os_, _ = run_prop(case, u * u.dtype.type(sfac))
         ctx.close(np.asarray(os_), sfac * out, TOL, "%s: P(s u) == s P(u)" % case["prop"], scale=sfac * (float(np.sqrt(np.sum(np.abs(out) ** 2))) or 1.0), name=case["prop"] + " amplitude homogeneity")
     a, b = case["a"], case["b"]
     with np.errstate(all="ignore"):
         ov, _ = run_prop(case, v)
-        oc, _ = run_prop(case, a * u + b * v)
+        w = a * u.astype(np.complex128) + b * v.astype(np.complex128)
+        if not np.array_equal(w.astype(u.dtype).astype(np.complex128), w):
+            ctx.classes["combination_not_representable_in_single_precision"] += 1     # nothing exact to compare with
+            return
+        oc, _ = run_prop(case, w.astype(u.dtype))
     sc = float(np.sqrt(np.sum(np.abs(a * out) ** 2) + np.sum(np.abs(b * ov) ** 2))) or 1.0
     ctx.close(oc, a * out + b * np.asarray(ov), TOL, "%s linearity" % case["prop"], scale=sc)
 
